@@ -154,7 +154,8 @@ pub fn format_buf(args: Vec<Rc<Object>>) -> Result<Collector, String> {
         } else {
             '\0'
         };
-        // inside a specifier, a '{' or '}' right before '<' or '>' is the fill character
+        // inside a specifier, a '{' right before '<' or '>' is the fill character
+        // (a '}' always closes the specifier: "{:}>" is an empty specifier followed by '>')
         let brace_is_fill = in_spec
             && in_spec_format
             && (next == '<' || next == '>')
@@ -169,7 +170,7 @@ pub fn format_buf(args: Vec<Rc<Object>>) -> Result<Collector, String> {
                 idx_fmt += 1;
             }
             continue;
-        } else if curr == '}' && !brace_is_fill {
+        } else if curr == '}' {
             // '}}' is an escape only outside a specifier: inside one, the
             // first '}' closes the specifier ("{}}}" is "{}" followed by "}}")
             if next == '}' && !in_spec {
